@@ -290,6 +290,9 @@ func sacramento(rainfall, pet data.ND1Float64,
 			//       Drainage and percolation loop
 			for inc := 1; inc <= ninc; inc++ {
 				ratio := (additionalImperviousStore - uprTensionWater) / lztwm
+				if ratio < 0 {
+					ratio = 0
+				}
 				addro := pinc * ratio * ratio
 
 				//         Compute the baseflow from the lower zone
@@ -351,8 +354,12 @@ func sacramento(rainfall, pet data.ND1Float64,
 						//            if( percfw > tiny(percfw) ) then
 						ratlp := 1. - alzfpc/alzfpm
 						ratls := 1. - alzfsc/alzfsm
+						fracp := hpl * (ratlp + ratlp) / (ratlp + ratls)
+						if fracp > 1.0 {
+							fracp = 1.0
+						}
 						percs := math.Min(alzfsm-alzfsc,
-							percfw*(1.-hpl*(ratlp+ratlp)/(ratlp+ratls)))
+							percfw*(1.-fracp))
 						alzfsc = alzfsc + percs
 						//             Check for spill from supplemental to primary
 						if alzfsc > alzfsm {
@@ -382,6 +389,10 @@ func sacramento(rainfall, pet data.ND1Float64,
 					}
 				}
 				additionalImperviousStore = additionalImperviousStore + pinc - addro
+				if additionalImperviousStore > uztwm+lztwm {
+					addro = addro + additionalImperviousStore - (uztwm + lztwm)
+					additionalImperviousStore = uztwm + lztwm
+				}
 				roimp = roimp + addro*adimp
 			}
 			adj = 1. - adj
